@@ -28,7 +28,7 @@ def consumers(ctx: Ctx):
                    f"from the framer's", where=where(fi, whiles[0]) if whiles else "")
 
 
-def definition_level(ctx: Ctx):
+def definition_level(ctx: Ctx, RULE: str = "R10.c"):
     """R10.c: the definition's packet generator (the consumer every user goes through) on a 3-packet stream cut at every byte,
     for bytes / file / closed socket: it ends without an exception and hands out exactly the complete packets (header-only
     mode, so no document is involved)."""
@@ -39,37 +39,41 @@ def definition_level(ctx: Ctx):
     prog = ctx.prog
     fi = prog.func_opt("xtce/definitions.py::XtcePacketDefinition.packet_generator")
     if fi is None:
-        ctx.unknown("R10.c", "xtce/definitions.py", "packet_generator not found")
+        ctx.unknown(RULE, "xtce/definitions.py", "packet_generator not found")
         return
     pk = [ccsds_bytes(bytes(range(1, 1 + n)), apid=5 + n, count=n) for n in (3, 1, 6)]
-    stream = b"".join(pk)
-    bounds = [0]
-    for p in pk:
-        bounds.append(bounds[-1] + len(p))
-    for kind in ("bytes", "file(read=4)", "socket closed by its peer"):
-        site = f"{fi.key}::cut at every byte::{kind}"
-        bad = None
-        try:
-            for cut in range(0, len(stream) + 1):
-                h = Harness(prog, source_externals(), max_steps=300000)
-                data = stream[:cut]
-                src = data if kind == "bytes" else (file_source(data) if kind.startswith("file") else socket_source([data[:5], data[5:]]))
-                kw = ", buffer_read_size_bytes=4" if kind.startswith("file") else ""
-                d = model_definition(h.it, "CCSDSPacket")
-                try:
-                    k, got = h.outcome(f"d.packet_generator(src, ccsds_headers_only=True{kw})", "xtce/definitions.py", d=d, src=src)
-                except StepLimit:
-                    bad = f"stream cut at byte {cut}: the definition's generator does not terminate"
-                    break
-                want = [p for p, end in zip(pk, bounds[1:]) if end <= cut]
-                if k != "ok" or [bytes(x) for x in got] != want:
-                    bad = (f"stream cut at byte {cut}: the definition's generator {'ends in ' + str(got) if k != 'ok' else 'yields ' + str(len(got)) + ' packets'}; "
-                           f"expected the {len(want)} complete packets and a normal end")
-                    break
-        except Unsupported as e:
-            ctx.unknown("R10.c", site, str(e))
-            continue
-        ctx.decide(bad is None, "R10.c", site, f"{len(stream) + 1} cuts", bad or "", where=where(fi, fi.node))
+    for skip in (0, 3):          # records with a per-packet prefix (skip_header_bytes): the option reaches the framer in every mode
+        stream = b"".join(bytes([0xE0 + i] * skip) + p for i, p in enumerate(pk))
+        bounds = [0]
+        for p in pk:
+            bounds.append(bounds[-1] + skip + len(p))
+        for kind in ("bytes", "file(read=4)", "socket closed by its peer"):
+            site = f"{fi.key}::cut at every byte::{kind}" + (f"::skip_header_bytes={skip}" if skip else "")
+            bad = None
+            try:
+                for cut in range(0, len(stream) + 1):
+                    h = Harness(prog, source_externals(), max_steps=300000)
+                    data = stream[:cut]
+                    src = data if kind == "bytes" else (file_source(data) if kind.startswith("file") else socket_source([data[:5], data[5:]]))
+                    kw = ", buffer_read_size_bytes=4" if kind.startswith("file") else ""
+                    if skip:
+                        kw += f", skip_header_bytes={skip}"
+                    d = model_definition(h.it, "CCSDSPacket")
+                    try:
+                        k, got = h.outcome(f"d.packet_generator(src, ccsds_headers_only=True{kw})", "xtce/definitions.py", d=d, src=src)
+                    except StepLimit:
+                        bad = f"stream cut at byte {cut}: the definition's generator does not terminate"
+                        break
+                    want = [p for p, end in zip(pk, bounds[1:]) if end <= cut]
+                    if k != "ok" or [bytes(x) for x in got] != want:
+                        bad = (f"stream cut at byte {cut}{f' (records with a {skip}-byte prefix, skip_header_bytes={skip})' if skip else ''}: the definition's "
+                               f"generator {'ends in ' + str(got) if k != 'ok' else 'yields ' + str(len(got)) + ' packets'}; "
+                               f"expected the {len(want)} complete packets and a normal end")
+                        break
+            except Unsupported as e:
+                ctx.unknown(RULE, site, str(e))
+                continue
+            ctx.decide(bad is None, RULE, site, f"{len(stream) + 1} cuts", bad or "", where=where(fi, fi.node))
 
 
 def check(ctx: Ctx) -> None:
@@ -127,7 +131,8 @@ SPEC = PropSpec(
                  "several read sizes, socket closed by its peer with several fragmentations}, and arbitrary byte "
                  "strings: termination (bounded interpreter steps), only complete packets, consecutive slices, short "
                  "remainder. R10.5 consumers add no loop of their own."
-                 " R10.c: the definition's packet generator in header-only mode on a 3-packet stream cut at every byte (bytes, file, closed socket) ends normally with exactly the complete packets. Sources include files that live on disk (descriptor, mmap), handles that were read before, and show_progress=True."),
+                 " R10.c: the definition's packet generator in header-only mode on a 3-packet stream cut at every byte (bytes, file, closed socket) ends normally with exactly the complete packets. Sources include files that live on disk (descriptor, mmap), handles that were read before, and show_progress=True."
+                 ' The truncation table includes streams with packets of the maximum size (cuts around every packet boundary) and file objects whose read(n) returns fewer bytes than asked for before the end of the file.'),
     rule_doc="R10.t one obligation per (prefix, cut offset) over all sources; R10.g per byte string; others per instance",
     assumptions=["a reader returns a falsy value once the source is exhausted (files, bytes, socket closed by its peer)"],
     mutants=mutants,
